@@ -17,7 +17,7 @@ from pyopenapi_gen.core.postprocess_manager import PostprocessManager
 from pyopenapi_gen.core.spec_fetcher import fetch_spec
 from pyopenapi_gen.core.warning_collector import WarningCollector
 from pyopenapi_gen.emitters.client_emitter import ClientEmitter
-from pyopenapi_gen.emitters.core_emitter import CoreEmitter
+from pyopenapi_gen.emitters.core_emitter import RUNTIME_FILES, CoreEmitter
 from pyopenapi_gen.emitters.endpoints_emitter import EndpointsEmitter
 from pyopenapi_gen.emitters.exceptions_emitter import ExceptionsEmitter
 from pyopenapi_gen.emitters.mocks_emitter import MocksEmitter
@@ -302,7 +302,9 @@ class ClientGenerator:
                 if not no_postprocess:
                     self._log_progress("Running post-processing on temporary files", "POSTPROCESS_TEMP")
                     # Pass the temp project root to PostprocessManager
-                    PostprocessManager(str(tmp_project_root_for_diff)).run([str(p) for p in temp_generated_files])
+                    PostprocessManager(str(tmp_project_root_for_diff)).run(
+                        [str(p) for p in self._without_runtime_copies(temp_generated_files, tmp_core_dir_for_diff)]
+                    )
                     self._log_progress(f"Post-processed {len(temp_generated_files)} files", "POSTPROCESS_TEMP")
 
                 # --- Compare final output dirs with the temp output dirs ---
@@ -482,7 +484,9 @@ class ClientGenerator:
             # Post-processing applies to all generated files
             if not no_postprocess:
                 self._log_progress("Running post-processing on generated files", "POSTPROCESS")
-                PostprocessManager(str(project_root)).run([str(p) for p in generated_files])
+                PostprocessManager(str(project_root)).run(
+                    [str(p) for p in self._without_runtime_copies(generated_files, core_dir)]
+                )
                 self._log_progress(f"Post-processed {len(generated_files)} files", "POSTPROCESS")
 
         total_time = time.time() - self.start_time
@@ -502,6 +506,16 @@ class ClientGenerator:
                     self._log_progress(f"{stage}: {duration:.2f}s", None)
 
         return generated_files
+
+    @staticmethod
+    def _without_runtime_copies(files: list[Path], core_dir: Path) -> list[Path]:
+        """Return the files to post-process: everything except the runtime modules copied into the core package.
+
+        Those are copied verbatim from the generator and must stay byte-for-byte what it ships
+        (formatters would otherwise re-wrap them with the defaults of the target project).
+        """
+        copies = {(core_dir / rel_dst.replace("core/", "", 1)).resolve() for _, _, rel_dst in RUNTIME_FILES}
+        return [p for p in files if Path(p).resolve() not in copies]
 
     def _write_client_package_init(self, client_init_py_path: Path, resolved_core_package_fqn: str) -> None:
         """Write the client package __init__.py that re-exports the external core (both generation modes)."""
